@@ -151,7 +151,7 @@ class Chain:
 
     @property
     def rows(self):
-        return [r for it in self.iterations for r in it]
+        return [r for run in self.runs for r in run.rows]
 
 
 def run_chain(recipe_text, parts, univ=(), trace=True, options=None, plugin_options=None, files=None):
